@@ -23,11 +23,12 @@ theorem readChunks_eq_slice (img : Bytes) (off : Nat) (cs : List Nat) :
 /-- The ordinary read announces exactly the number of bytes in `[off, min(off+limit, size))`
     and then sends exactly those bytes; the connection stays open. -/
 theorem readFile_exact (cfg : Cfg) (w : World) (st : State) (ino : Nat) (f : Inode)
-    (hro : st.ro = some (.plain ino)) (hf : w.inode? ino = some f) (limit off : Nat) (hoff : off < 2 ^ 63) :
+    (hro : st.ro = some (.plain ino)) (hf : w.inode? ino = some f) (limit off : Nat) (hoff : off ≤ osSeekMax) :
     step cfg w st (.readFile limit off) =
       (w, st, ⟨readFileResultHdr (min limit (f.content.size - off)) ++ f.content.read off limit, false⟩) := by
   have hlen := Content.read_length f.content off limit
-  simp [step, hro, hf, roSeekOk, roRead, hlen, Nat.not_le.mpr hoff]
+  have h63 : off < 2 ^ 63 := by unfold osSeekMax at hoff; omega
+  simp [step, hro, hf, roSeekOk, roRead, RO.isDir, hlen, Nat.not_le.mpr h63, hoff]
 
 /-- **Served bytes are stored bytes**: what a read of `(off, limit)` delivers is the slice
     `[off, min(off+limit, size))` of the file's one fixed content — for every size, offset and limit. -/
@@ -45,18 +46,19 @@ theorem readFile_header (n : Nat) : readFileResultHdr n = beN 4 n := by
 /-- The critical read sends the same bytes raw, and ends the connection exactly when it could not
     be satisfied in full — after a correct prefix. -/
 theorem readCrit_exact (cfg : Cfg) (w : World) (st : State) (ino : Nat) (f : Inode)
-    (hro : st.ro = some (.plain ino)) (hf : w.inode? ino = some f) (limit off : Nat) (hoff : off < 2 ^ 63) :
+    (hro : st.ro = some (.plain ino)) (hf : w.inode? ino = some f) (limit off : Nat) (hoff : off ≤ osSeekMax) :
     step cfg w st (.readFileCritical limit off) =
       (w, st, ⟨f.content.read off limit, decide (min limit (f.content.size - off) < limit)⟩) := by
   have hlen := Content.read_length f.content off limit
-  simp [step, hro, hf, roSeekOk, roRead, hlen, Nat.not_le.mpr hoff]
+  have h63 : off < 2 ^ 63 := by unfold osSeekMax at hoff; omega
+  simp [step, hro, hf, roSeekOk, roRead, hlen, Nat.not_le.mpr h63, hoff]
 
 /-- Reads through a generated image or a decrypting view obey the same rule with the view's bytes. -/
 theorem readFile_view (cfg : Cfg) (w : World) (st : State) (v : StaticView)
     (hro : st.ro = some (.static v)) (limit off : Nat) (hoff : off < 2 ^ 63) (hseek : v.seekOk off = true) :
     step cfg w st (.readFile limit off) =
       (w, st, ⟨readFileResultHdr (v.read off limit).length ++ v.read off limit, false⟩) := by
-  simp [step, hro, roSeekOk, roRead, hseek, Nat.not_le.mpr hoff]
+  simp [step, hro, roSeekOk, roRead, RO.isDir, hseek, Nat.not_le.mpr hoff]
 
 /-- Without an open file, or for an offset the object cannot be positioned at, nothing is sent and
     the connection ends: the client never receives unannounced data. -/
